@@ -211,6 +211,34 @@ impl<'tcx> Ex<'tcx> {
                             o.push(("value", self.value_j(v, ty)));
                         }
                     }
+                    // `const A: T = other::B;`: the initializer is nothing but another constant: record what it names
+                    if !generic {
+                        let body = tcx.mir_for_ctfe(ldid);
+                        let mut alias: Option<String> = None;
+                        let mut n_assign = 0;
+                        for bbd in body.basic_blocks.iter() {
+                            for st in bbd.statements.iter() {
+                                if let StatementKind::Assign(bx) = &st.kind {
+                                    let (place, rv) = &**bx;
+                                    if place.local.as_usize() == 0 && place.projection.is_empty() {
+                                        n_assign += 1;
+                                        if let Rvalue::Use(Operand::Constant(c), ..) = rv {
+                                            if let Const::Unevaluated(uv, _) = c.const_ {
+                                                if uv.promoted.is_none() {
+                                                    alias = Some(self.path(uv.def));
+                                                }
+                                            }
+                                        }
+                                    }
+                                }
+                            }
+                        }
+                        if n_assign == 1 {
+                            if let Some(a) = alias {
+                                o.push(("alias_of", J::Str(a)));
+                            }
+                        }
+                    }
                     let (file, line, _) = self.span_info(tcx.def_span(did));
                     o.push(("file", J::Str(file)));
                     o.push(("line", J::Int(line)));
